@@ -105,6 +105,19 @@ class MMatch(Model):
     def end(self, *a):
         return self._m.end(*a)
 
+    def span(self, *a):
+        return self._m.span(*a)
+
+    def groupdict(self):
+        return self._m.groupdict()
+
+    def __getitem__(self, i):
+        return self._m[i]
+
+    @property
+    def string(self):
+        return self._m.string
+
 
 class MRe(Model):
     DOTALL = _re.DOTALL
@@ -133,8 +146,11 @@ class MRe(Model):
         except _re.error as e:
             raise ModelRaise("re.error", str(e))
 
-    def sub(self, pat, repl, text, flags=0):
-        return _re.sub(pat, repl, text, flags=flags)
+    def sub(self, pat, repl, text, count=0, flags=0):
+        return _re.sub(pat, (lambda m: repl(MMatch(m))) if callable(repl) else repl, text, count=count, flags=flags)
+
+    def subn(self, pat, repl, text, count=0, flags=0):
+        return _re.subn(pat, (lambda m: repl(MMatch(m))) if callable(repl) else repl, text, count=count, flags=flags)
 
     def split(self, pat, text):
         return _re.split(pat, text)
@@ -178,8 +194,8 @@ class MPattern(Model):
     def finditer(self, text, *a):
         return iter([MMatch(m) for m in self._p.finditer(text, *a)])
 
-    def sub(self, repl, text):
-        return self._p.sub(repl, text)
+    def sub(self, repl, text, count=0):
+        return self._p.sub((lambda m: repl(MMatch(m))) if callable(repl) else repl, text, count=count)
 
     def split(self, text):
         return self._p.split(text)
